@@ -57,6 +57,7 @@ class Ctx:
         self.known_hit = []       # list of strings
         self.rule = ""
         self.exhaustive = False
+        self.replay_module = None     # (trace module, constants) used by `bin/check Cxx --replay file`
 
     def path(self, *p):
         return os.path.join(self.work, *p)
@@ -81,7 +82,9 @@ class Ctx:
             return None
         p = os.path.join(self.replay_dir, "%s-%s-%d.json" % (self.pid, self.tier, n))
         with open(p, "w") as f:
-            json.dump({"property": self.pid, "what": what, "replay": replay_obj}, f, indent=1, default=str)
+            json.dump({"property": self.pid, "what": what, "replay": replay_obj,
+                       "trace_module": self.replay_module[0] if self.replay_module else None,
+                       "consts": self.replay_module[1] if self.replay_module else None}, f, indent=1, default=str)
         self.violations.append({"what": what, "replay": p})
         return p
 
@@ -316,6 +319,7 @@ def validate_trace(ctx, name, module, trace_path, consts=None, timeout=1800, xmx
     Returns Verdict: .violations (set of case numbers), .known (dict case->set of kf labels), .rejected (list of
     (case, line, event-text)), .consumed (bool), .states"""
     consts = consts or {}
+    ctx.replay_module = (module, dict(consts))
     cfg = ctx.path("trace-%s.cfg" % name)
     with open(cfg, "w") as f:
         f.write("SPECIFICATION Spec\nCHECK_DEADLOCK FALSE\nPOSTCONDITION Accepted\nCONSTRAINT Report\n")
@@ -364,6 +368,31 @@ def split_cases(trace_path):
     return cases
 
 
+def replay_file(ctx, path):
+    """re-validate the recorded observation of one violating case against its trace module and show TLC's verdict"""
+    d = json.load(open(path))
+    rp = d.get("replay") or {}
+    trace = rp.get("trace")
+    if not trace or not d.get("trace_module"):
+        print(json.dumps(d, indent=1)[:6000])
+        print("(this replay file carries no recorded trace; the text above is the complete record)")
+        return 0
+    tp = ctx.path("replay-trace.ndjson")
+    with open(tp, "w") as f:
+        for e in trace:
+            f.write(json.dumps(e) + "\n")
+    v = validate_trace(ctx, "replay", d["trace_module"], tp, d.get("consts") or {})
+    for e in trace[:60]:
+        print(json.dumps(e)[:300])
+    if v.violations:
+        for r in v.rejected:
+            print("REJECTED by %s at trace line %d: %s" % (d["trace_module"], r[1], r[2]))
+        print("VIOLATION property=%s replay=%s" % (ctx.pid, path))
+        return 1
+    print("accepted by %s (known: %s)" % (d["trace_module"], dict(v.known)))
+    return 0
+
+
 def main_wrapper(pid, fn):
     """entry point of a check module: fn(ctx) does the work"""
     import argparse
@@ -375,6 +404,8 @@ def main_wrapper(pid, fn):
     ctx = Ctx(pid, a.tier, seed)
     ctx.replay = a.replay
     try:
+        if a.replay:
+            sys.exit(replay_file(ctx, a.replay))
         fn(ctx)
         rc = ctx.finish()
     except ToolError as ex:
